@@ -643,3 +643,31 @@ where
     }
     reds
 }
+
+/// Grammar only (no tables): (grammar, AG token -> TIdx, AG rule -> RIdx).
+pub fn build_grammar_only<T: 'static + PrimInt + Unsigned + Hash + Debug>(
+    ag: &AG,
+    src: String,
+    kind: YaccKind,
+) -> Result<(YaccGrammar<T>, Vec<TIdx<T>>, Vec<RIdx<T>>), BuildErr>
+where
+    usize: AsPrimitive<T>,
+{
+    let grm = YaccGrammar::<T>::new_with_storaget(kind, &src)
+        .map_err(|e| BuildErr::Grammar(format!("{:?}", e)))?;
+    let mut tok = vec![];
+    for t in &ag.tokens {
+        tok.push(
+            grm.token_idx(t)
+                .ok_or_else(|| BuildErr::Grammar(format!("token {t} missing")))?,
+        );
+    }
+    let mut rule = vec![];
+    for r in &ag.rules {
+        rule.push(
+            grm.rule_idx(&r.name)
+                .ok_or_else(|| BuildErr::Grammar(format!("rule {} missing", r.name)))?,
+        );
+    }
+    Ok((grm, tok, rule))
+}
